@@ -11,7 +11,9 @@ import (
 	"strings"
 	"time"
 
+	"github.com/logrange/logrange/api"
 	"github.com/logrange/logrange/pkg/model"
+	"github.com/logrange/logrange/pkg/model/field"
 	"github.com/logrange/logrange/pkg/model/tag"
 	"github.com/logrange/logrange/pkg/partition"
 	"github.com/logrange/range/pkg/records"
@@ -28,13 +30,27 @@ type Ev struct {
 	Lbl  int   `json:"l"`
 	Ts   int64 `json:"t"`
 	Keep bool  `json:"k"`
+	// Fld selects the event's fields: 0 = none, 1..3 = one field `code` with one of three values of EQUAL length
+	// (so that consecutive events differ in field content only, not in any length)
+	Fld int `json:"f,omitempty"`
+}
+
+var fldValues = []string{"", "code=200", "code=404", "code=500"}
+
+// FieldsOf is the KV text of the event's fields, as the query API returns it.
+func FieldsOf(e Ev) string {
+	if e.Fld <= 0 || e.Fld >= len(fldValues) {
+		return ""
+	}
+	return fldValues[e.Fld]
 }
 
 func Msg(e Ev) string {
+	// fixed width: all messages have the same length, so the fields of consecutive records sit at the same offset
 	if e.Keep {
-		return "k" + strconv.Itoa(e.Lbl)
+		return fmt.Sprintf("k%06d", e.Lbl)
 	}
-	return "d" + strconv.Itoa(e.Lbl)
+	return fmt.Sprintf("d%06d", e.Lbl)
 }
 
 // ParseMsg gives the label of a delivered message (-1 when it is not one of ours).
@@ -102,6 +118,13 @@ func (w *World) Write(i int, evs []Ev) error {
 	les := make([]model.LogEvent, len(evs))
 	for k, e := range evs {
 		les[k] = model.LogEvent{Timestamp: e.Ts, Msg: []byte(Msg(e))}
+		if f := FieldsOf(e); f != "" {
+			fl, err := field.NewFieldsFromKVString(f)
+			if err != nil {
+				return err
+			}
+			les[k].Fields = fl
+		}
 	}
 	var werr error
 	func() {
@@ -393,4 +416,48 @@ func PosToModelStart(pos string) string {
 		return "empty"
 	}
 	return strings.ToLower(pos)
+}
+
+// TagLine is the tag line the query API reports for events of partition i.
+func (w *World) TagLine(i int) string {
+	ts, err := tag.Parse(w.Parts[i].Tags)
+	if err != nil {
+		return w.Parts[i].Tags
+	}
+	return string(ts.Line())
+}
+
+// Verify compares a delivered event with what was written under its label: timestamp, message, tags and
+// fields. "" = identical; otherwise a description of the first difference.
+func (w *World) Verify(e *api.LogEvent) string {
+	lbl := ParseMsg(e.Message)
+	if lbl < 0 {
+		return fmt.Sprintf("foreign message %q", e.Message)
+	}
+	p, idx := PartOf(lbl), lbl%100000
+	if p >= len(w.Parts) || idx >= len(w.Parts[p].Evs) {
+		return fmt.Sprintf("event %d was never written", lbl)
+	}
+	ev := w.Parts[p].Evs[idx]
+	switch {
+	case e.Message != Msg(ev):
+		return fmt.Sprintf("event %d: message %q, written %q", lbl, e.Message, Msg(ev))
+	case e.Timestamp != ev.Ts:
+		return fmt.Sprintf("event %d: timestamp %d, written %d", lbl, e.Timestamp, ev.Ts)
+	case e.Fields != FieldsOf(ev):
+		return fmt.Sprintf("event %d: fields %q, written %q", lbl, e.Fields, FieldsOf(ev))
+	case e.Tags != w.TagLine(p):
+		return fmt.Sprintf("event %d: tags %q, partition has %q", lbl, e.Tags, w.TagLine(p))
+	}
+	return ""
+}
+
+// VerifyAll verifies a page; it returns the first difference.
+func (w *World) VerifyAll(evs []*api.LogEvent) string {
+	for _, e := range evs {
+		if d := w.Verify(e); d != "" {
+			return d
+		}
+	}
+	return ""
 }
